@@ -21,7 +21,7 @@ gvars == <<vars, hist>>
 
 Op(k, a, id, ok) == [k |-> k, a |-> a, id |-> id, ok |-> ok]
 Obs == [out |-> out, aid |-> [a \in Adders |-> aid[a]], pc |-> [a \in Adders |-> pc[a]],
-        term |-> term, exec |-> exec, up |-> up]
+        live |-> live, term |-> term, exec |-> exec, up |-> up]
 Selected == SampleMod = 1 \/ TLCGet("generated") % SampleMod = (CHOOSE n \in 0..99 : ToString(n) = IOEnv.SEL)
 Step(o) == /\ hist' = Append(hist, [op |-> o, obs |-> Obs'])
            /\ Selected => PrintT(<<Tag, ToJson(hist')>>)
